@@ -40,6 +40,7 @@ const (
 	sigCarries     = "emulated-mul-carries-unchecked"
 	sigSelectAlias = "emulated-select-append-aliasing"
 	sigToBitsConst = "emulated-tobits-constant-overflow"
+	sigIsZeroConst = "emulated-iszero-constant-operand"
 )
 
 func TestMain(m *testing.M) {
@@ -103,6 +104,11 @@ func knownSignature(c *Case, res *result, msg string) string {
 						return sigToBitsConst
 					}
 				}
+			}
+		case "IsZero", "AssertIsDifferent":
+			// IsZero indexes limb 0 of the reduced element, which is on zero limbs when the operand folds to a constant
+			if strings.Contains(msg, "index out of range [0] with length 0") && c.Mode != "engine" {
+				return sigIsZeroConst
 			}
 		case "Exp":
 			// Exp itself runs Select(bit, Mul(base, res), res): with a base on more than NbLimbs limbs this is the aliasing shape
@@ -633,8 +639,8 @@ func run(c Case, rec *ev.Recorder) (out ev.Outcome) {
 		if v != "" || d != "" {
 			return finish(v, d, pr)
 		}
-		if au0.carryBeyond {
-			return ev.Outcome{Violation: where + " harness self-check: honest carries exceed the bound used to recognise finding " + sigCarries}
+		if au0.intFalse && serr == nil {
+			return ev.Outcome{Violation: where + " harness self-check: an honest multiplication hint output does not satisfy lhs = rem + quo*p over the integers"}
 		}
 		for si, set := range c.Adv {
 			pr.resetValues()
@@ -684,9 +690,10 @@ func run(c Case, rec *ev.Recorder) (out ev.Outcome) {
 				continue
 			}
 			full := fmt.Sprintf("%s solve %d with rewritten hint outputs %v (applied %v) is accepted: %s", where, si, set, au.applied, bad)
-			if au.carryBeyond && !au.outOfRange {
-				// the forgery relies on carry limbs beyond the honest bound while quotient and remainder
-				// limbs respect their range checks: the known unchecked-carries defect
+			if au.intFalse && !au.outOfRange {
+				// quotient and remainder limbs respect their range checks but lhs = rem + quo*p is false over the
+				// integers: the identity can only hold modulo the native field, through carry limbs that no honest
+				// (range-checked) carry sequence can take: the known unchecked-carries defect
 				if c.Groth16 {
 					full += " | " + groth16Confirm(sys, w, set, au0.counts, ps)
 				}
